@@ -5,6 +5,32 @@ COMMON_NOTE = ("Trusted base: Lean 4.33 kernel; axioms ⊆ {propext, Classical.c
                "generated tables (harness/gen_tables.py). ")
 
 CLAIMED = {
+    "C02": {
+        "text": "Theorems (Lean): read_is_snapshot / api_is_snapshot — for every timeline of committed versions and every pair of instants inside "
+                "a read's interval, every read API returns (a function of) the rows of exactly ONE version that was current inside the interval "
+                "and never raises (repaired reader); read_is_snapshot_refuted — machine-checked witness of the defect found (two refreshes), "
+                "replayed on every read API, then repaired; monotone_reads — in the commit transition system of C01 the flips seen by an earlier "
+                "pointer read are an initial part, in commit order, of those seen by any later read, for every schedule. Tie: 1–2 real readers "
+                "× 1–3 real writers (append, two-append transaction, delete, rollback, failed commit) under the deterministic scheduler; each "
+                "read's pointer-read positions on the flip timeline are fed to the reader model which must predict the result; oracle: result = "
+                "row multiset of one version current during the read (independent reader), per-handle order monotone, two-append transaction "
+                "visible all-or-nothing.",
+        "design_ref": "§6 C02",
+        "note": "Immutability/presence of files of versions that were ever current is C01/C05/C06/C09's business and is exercised here by the oracle.",
+        "technique": "Lean 4 theorems over a pointer-timeline reader model + suffix-monotonicity in the OCC system; scheduled readers×writers",
+    },
+    "C06": {
+        "text": "Theorems (Lean, unbounded: one collection run × any number of transactions, every interleaving): gc_concurrent_safe — with the "
+                "markers loaded before the metadata, every file referenced by a snapshot committed before, during or after the run exists and "
+                "was never deleted by the collector, even if it was already older than the grace period when it committed; inflight_protected; "
+                "metadata_first_refuted — machine-checked witness of the defect found (metadata read before marker load), replayed on the real "
+                "collector under the scheduler, then repaired. Tie: real garbage_collect × 1–2 real transactions with aged data files, "
+                "rollbacks, at storage-operation granularity; the abstract trace replayed on the model must yield the same deleted set; oracle: "
+                "every file of every snapshot of the final metadata exists.",
+        "design_ref": "§6 C06",
+        "note": "Assumes the grace period exceeds the run and a live transaction is younger than the abandonment timeout; file names are fresh.",
+        "technique": "Lean 4 invariant over the collector×transactions transition system + trace replay of scheduled real executions",
+    },
     "C07": {
         "text": "Theorems (Lean, unbounded: any number of snapshots, manifests, markers and listed files, ANY combination of failing storage "
                 "calls): abort_deletes_nothing — a collection that raises has deleted nothing; untrusted_never_deletes — a failing metadata "
